@@ -419,6 +419,11 @@ func (fr *Frame) atHook(where, target string, ins ssa.Instruction, st *State) {
 			continue
 		}
 		env := fr.specEnv(st)
+		if where == "entry" {
+			for k, pv := range fr.run.params {
+				env.vars[k] = pv
+			}
+		}
 		g := env.evalBool(at.Clause.Expr)
 		switch at.Kind {
 		case "assert":
